@@ -158,22 +158,47 @@ def rule_pre_details(ck):
                    bad="sessions are not kept exactly under the `remaining_demand > min_pilot energy of one period` test: finished sessions keep being charged "
                        "(or unfinished ones are dropped)", sink="rfs:threshold")
         ck.require(dotted(ex.elt) == v, "C07.R1", rf, ex.elt, ok="the session itself is kept", bad="something other than the session is kept", sink="rfs:elem")
-    am = anchored_fn(repo, "apply_minimum_charging_rate", ("rates", "session_queue"))
+    # apply_minimum_charging_rate as a decision table (every path through one iteration, path-sensitive def-use expansion): the gate may be
+    # one compound test, nested tests, guard clauses or a staged boolean - the rows are the same
+    from .. import pathtab
+    am = anchored_fn(repo, "apply_minimum_charging_rate", ("rates",))
     al = flow_of(am)
-    chk = [n for n in al.cfg.nodes if n.kind == "test" and any(is_feasible_call(x) for x in ast.walk(n.expr))]
-    ck.require(len(chk) == 1, "C07.R2", am, "feasibility gate of the minimum rate", bad=f"{len(chk)} feasibility gates in apply_minimum_charging_rate", sink="amcr:gate")
-    for t in chk:
-        fe = [s_ for s_ in t.succ if s_.kind == "edge" and s_.label is False][0]
-        reg = region(al, fe)
-        zero = {canon(n.stmt.targets[0]) for n in reg if n.kind == "stmt" and isinstance(n.stmt, ast.Assign) and isinstance(n.stmt.value, ast.Constant) and n.stmt.value.value == 0}
-        need = {"rates[i]", "session.min_rates[0]", "session.max_rates[0]"}
-        ck.require(need <= zero, "C07.R2", am, t.expr, ok="a session that cannot get its minimum is held at 0 (min and max rate zeroed)",
-                   bad=f"on the infeasible edge only {sorted(zero)} are zeroed; {sorted(need - zero)} must be zeroed too, or the session is later granted a pilot below the EVSE minimum",
-                   sink="amcr:zero")
-        te = [s_ for s_ in t.succ if s_.kind == "edge" and s_.label is True][0]
-        sts = [n for n in region(al, te) if n.kind == "stmt" and isinstance(n.stmt, ast.Assign) and canon(n.stmt.targets[0]) == "session.min_rates[0]"]
-        ok = bool(sts) and all(isinstance(al.expand(n.stmt.value, n), ast.Call) and call_name(al.expand(n.stmt.value, n)) == "max" for n in sts)
-        ck.require(ok, "C07.R2", am, sts[0].stmt if sts else t.expr, ok="minimum rate raised to the EVSE minimum (never lowered)", bad="the minimum rate is not max(EVSE minimum, existing minimum)", sink="amcr:raise")
+    rows = [r for r in pathtab.table(al) if r.end != "raise" and any(k.startswith("iterates ") and t for k, t, a, n in r.facts)]
+
+    def demand(k, a):
+        return "remaining_amp_periods(" in k and (" <= " in k or " < " in k)
+
+    def feasible(k, a):
+        return k.startswith("infrastructure_constraints_feasible(")
+
+    def stores(r, what):
+        return [k for kind, k, a, n in r.effects if kind == "store" and what in k]
+
+    def zeroes_rate(r):
+        return any(n.kind == "stmt" and isinstance(n.stmt, ast.Assign) and isinstance(n.stmt.targets[0], ast.Subscript) and dotted(n.stmt.targets[0].value) == "rates"
+                   and isinstance(n.stmt.value, ast.Constant) and n.stmt.value.value == 0 for n in r.nodes)
+    keep = [r for r in rows if any("max(" in k.split(" = ", 1)[1] for k in stores(r, ".min_rates[0] = "))]
+    drop = [r for r in rows if r not in keep]
+    ck.require(bool(keep) and bool(drop), "C07.R2", am, "feasibility gate of the minimum rate", ok="sessions are either kept at the minimum rate or held at 0",
+               bad=f"{len(keep)} keeping and {len(drop)} dropping paths through apply_minimum_charging_rate (need both)", sink="amcr:gate")
+    for r in keep:
+        ok = pathtab.implied(al, r, demand) is True and pathtab.implied(al, r, feasible) is True
+        ck.require(ok, "C07.R2", am, r.describe(120), ok="the minimum rate is granted only when it fits the demand and the infrastructure",
+                   bad="a session is kept at the minimum rate on a path on which `rate <= remaining demand` and the feasibility check have not both passed", sink="amcr:gate")
+        vals = [k.split(" = ", 1)[1] for k in stores(r, ".min_rates[0] = ")]
+        ck.require(all(v.startswith("max(") for v in vals), "C07.R2", am, vals[0] if vals else "session.min_rates[0]", ok="minimum rate raised to the EVSE minimum (never lowered)",
+                   bad="the minimum rate is not max(EVSE minimum, existing minimum)", sink="amcr:raise")
+    for r in drop:
+        got = {w for w in (".min_rates[0] = 0", ".max_rates[0] = 0") if stores(r, w)} | ({"rates[i] = 0"} if zeroes_rate(r) else set())
+        need = {".min_rates[0] = 0", ".max_rates[0] = 0", "rates[i] = 0"}
+        ck.require(need <= got, "C07.R2", am, r.describe(120), ok="a session that cannot get its minimum is held at 0 (min and max rate zeroed)",
+                   bad=f"on a path on which the minimum rate is refused only {sorted(got)} are zeroed; {sorted(need - got)} must be zeroed too, or the session is later granted a "
+                       f"pilot below the EVSE minimum", sink="amcr:zero")
+        both = pathtab.satisfiable(al, r, [(demand, True), (feasible, True)])
+        if both is None and pathtab.implied(al, r, demand) is False:
+            both = False              # the feasibility check is not even reached: the demand test already failed
+        ck.require(both is False, "C07.R2", am, r.describe(120), ok="refused only when the demand or the infrastructure does not allow it",
+                   bad="a session is refused its minimum rate although both the demand test and the feasibility check passed", sink="amcr:gate")
 
 
 def min_args(e):
@@ -505,27 +530,53 @@ def rule_output(ck):
     f = repo.fn("format_array_schedule")
     fl = flow_of(f)
     arr, infra = f.params[:2]
-    loops = [n for n in fl.cfg.nodes if n.kind == "for"]
-    ck.require(len(loops) == 1 and canon(loops[0].stmt.iter) == f"enumerate({infra}.station_ids)", "C07.R6", f, loops[0].stmt.iter if loops else "for", ok="one iteration per network station",
-               bad="format_array_schedule does not enumerate every station of the infrastructure", sink="format:iter")
-    sts = [n for n in fl.cfg.nodes if n.kind == "stmt" and isinstance(n.stmt, ast.Assign) and isinstance(n.stmt.targets[0], ast.Subscript) and dotted(n.stmt.targets[0].value) == "schedule"]
-    ck.floor("C07.R6", len(sts), 1, "stores into the output mapping")
-    for n in sts:
-        key = canon(fl.expand(n.stmt.targets[0].slice, n))
-        val = fl.expand(n.stmt.value, n)
-        ok = key == f"__elem__({infra}.station_ids)" and f"{arr}[__idx__({infra}.station_ids)]" in canon(val)
-        ck.require(ok, "C07.R6", f, n.stmt, ok="station id -> the array entry at the same position", bad="the output maps a station to an entry of another position", sink="format:pairing")
+    # the returned mapping, def-use expanded: a dict filled in a loop over the stations expands to the comprehension it computes, a
+    # value chosen by if/else (or a local helper) to the conditional expression; the rule reads that one normal form
+    from ..rules import gexpand, specialise, alts_deep
+    rets = [n for n in fl.cfg.nodes if n.kind == "return" and n.expr is not None]
+    ck.floor("C07.R6", len(rets), 1, "stores into the output mapping")
+    for r in rets:
+        e = gexpand(fl, r.expr, r)
+        if not (isinstance(e, ast.DictComp) and len(e.generators) == 1):
+            raise AnalysisError(f"format_array_schedule: construction of the returned mapping not recognised: {src(e, 80)}")
+        g = e.generators[0]
+        it = canon(g.iter)
+        pos = sid = None
+        if it == f"enumerate({infra}.station_ids)" and isinstance(g.target, ast.Tuple) and len(g.target.elts) == 2 and all(isinstance(x, ast.Name) for x in g.target.elts):
+            pos, sid = g.target.elts[0].id, g.target.elts[1].id
+            cell_forms = (f"{arr}[{pos}]",)
+        elif it in (f"range(len({infra}.station_ids))", f"range({infra}.num_stations)") and isinstance(g.target, ast.Name):
+            pos = g.target.id
+            sid = f"{infra}.station_ids[{pos}]"
+            cell_forms = (f"{arr}[{pos}]",)
+        elif it in (f"zip({infra}.station_ids, {arr})",) and isinstance(g.target, ast.Tuple) and len(g.target.elts) == 2 and all(isinstance(x, ast.Name) for x in g.target.elts):
+            sid, pos = g.target.elts[0].id, None
+            cell_forms = (g.target.elts[1].id,)
+        ck.require(sid is not None, "C07.R6", f, g.iter, ok="one iteration per network station",
+                   bad="format_array_schedule does not enumerate every station of the infrastructure", sink="format:iter")
+        if sid is None:
+            continue
+        ck.require(not g.ifs, "C07.R6", f, g.ifs[0] if g.ifs else "every station gets an entry", ok="no station skipped",
+                   bad="some station can be left out of the schedule (conditional store)", sink="format:all")
+        ok = canon(e.key) == sid and any(cf in canon(e.value) for cf in cell_forms)
+        ck.require(ok, "C07.R6", f, e.key, ok="station id -> the array entry at the same position", bad="the output maps a station to an entry of another position", sink="format:pairing")
         # the entry is handed on unchanged: a scalar becomes the one-period list [x], a row its own list - never repeated, scaled or padded
         # (the bounds of R2 - remaining demand, estimator bound - are computed for exactly the periods the algorithm returned)
-        cell = f"{arr}[__idx__({infra}.station_ids)]"
-        exact = canon(val) in (f"[{cell}]", f"{cell}.tolist()", f"list({cell})")
-        ck.require(exact, "C07.R6", f, n.stmt, ok="the entry is passed on as computed (one period for a one-dimensional schedule)",
-                   bad=f"the output entry `{src(val, 70)}` is not the computed entry itself: a one-period rate held for several periods exceeds the per-period bounds "
-                       f"it was computed under", sink="format:exact")
-    if loops:
-        te = [s for s in loops[0].succ if s.kind == "edge" and s.label][0]
-        ck.require(loops[0] not in fl.cfg.reach(te, avoid=set(sts) | {fl.cfg.raise_exit}), "C07.R6", f, "every station gets an entry", ok="no station skipped",
-                   bad="some station can be left out of the schedule (conditional store)", sink="format:all")
+        vals = alts_deep(specialise(e.value, {}), limit=8) if ("__gamma__" in canon(e.value) or "__phi__" in canon(e.value)) else [e.value]
+        flat = []
+        for v in vals:
+            stack = [v]
+            while stack:
+                x = stack.pop()
+                if isinstance(x, ast.IfExp):
+                    stack += [x.body, x.orelse]
+                else:
+                    flat.append(x)
+        for v in flat:
+            exact = any(canon(v) in (f"[{cell}]", f"{cell}.tolist()", f"list({cell})") for cell in cell_forms)
+            ck.require(exact, "C07.R6", f, v, ok="the entry is passed on as computed (one period for a one-dimensional schedule)",
+                       bad=f"the output entry `{src(v, 70)}` is not the computed entry itself: a one-period rate held for several periods exceeds the per-period bounds "
+                           f"it was computed under", sink="format:exact")
     for q, alg in (("SortedSchedulingAlgo.sorting_algorithm", "sorting_algorithm"), ("RoundRobin.round_robin", "round_robin")):
         g = anchored_fn(repo, q, ("schedule",))
         gl = flow_of(g)
